@@ -360,6 +360,8 @@ func propC04(c *Ctx) {
 	c.Rule("R4.7", "a task emits only what its own filters accept: every cell value is offered to its column's filter (logs left in a shared cached block by another task cannot slip through)", 4)
 	checkEveryCellFiltered(c, "R4.7")
 	checkFiltersNeverOverwritten(c, "R4.7")
+	c.Rule("R4.8", "a destination and its decoder scratch state are owned by one task: every element of Task.dests comes from a factory call made by that NewTask invocation; the default factory constructs what it returns (or reads a registry it never writes)", 4)
+	checkDestinationsOwned(c, "R4.8", res)
 	c.Rule("R4.5", "attaching logs to a block shared with another task drops a log only as a duplicate", 2)
 	checkLogsAddDedup(c, "R4.5")
 	checkLogsMergedNotReplaced(c, "R4.5")
